@@ -615,7 +615,7 @@ func TestVerifC05(t *testing.T) {
 			if r.err != nil {
 				out = "err"
 			}
-			c.Logf("%v %v", r.err, r.faults)
+			c.Logf("%s %v", strings.ReplaceAll(fmt.Sprint(r.err), dir, "$DIR"), r.faults)
 			if r.net != nil {
 				for _, e := range r.net.Log {
 					c.Logf("%s", e)
